@@ -280,6 +280,16 @@ impl EncodingType {
                 | (EncodingType::Null, EncodingType::I64) => EncodingType::I64,
                 (EncodingType::OptStr, EncodingType::Str)
                 | (EncodingType::Str, EncodingType::OptStr) => EncodingType::OptStr,
+                // A column that is numeric in one partition and a string in another: like I64 and F64, the two
+                // only have `Val` in common (all of these types convert to `Val`).
+                (
+                    EncodingType::I64 | EncodingType::F64 | EncodingType::U8,
+                    EncodingType::Str | EncodingType::OptStr,
+                )
+                | (
+                    EncodingType::Str | EncodingType::OptStr,
+                    EncodingType::I64 | EncodingType::F64 | EncodingType::U8,
+                ) => EncodingType::Val,
                 _ => unimplemented!("lub not implemented for {:?} and {:?}", self, other),
             }
         }
